@@ -239,4 +239,16 @@ CLAIMS['C19'] = {
     'note': _NOTE,
 }
 
+CLAIMS['C18'] = {
+    'text': 'SimPy events/processes: fire-once typestate of Event._value (every write '
+            'dominated by `_value is None`, on paths); _trigger as one synchronous block '
+            '(flag, trigger, schedule callbacks); callbacks swapped to None before they run '
+            'once; undefused failures raised; Event.__await__; Timeout/Process/'
+            'InterruptQueue/AllOf/AnyOf plumbing (handler order, suspension-free try body, '
+            'FIFO interrupts, evaluator formulas by normal form); Environment.until/run. '
+            'Fan-out values/times for arbitrary process graphs and callback effects are not '
+            'decided.',
+    'note': _NOTE,
+}
+
 NOT_APPLICABLE = {}
